@@ -21,6 +21,8 @@ func main() {
 		os.Exit(cmdCheck(os.Args[2:]))
 	case "list":
 		cmdList(os.Args[2:])
+	case "sweep":
+		cmdSweep(os.Args[2:])
 	default:
 		fmt.Fprintln(os.Stderr, "unknown command", os.Args[1])
 		os.Exit(2)
@@ -114,6 +116,7 @@ func cmdVC(args []string) {
 		rs, vac := x.SolveFiltered(SolveOpts{Dir: dir, QuickMs: 3000, FallbackS: 30})
 		if vac {
 			fmt.Println("  !! VACUOUS: assumptions are unsatisfiable")
+			fmt.Println("     ", x.FindVacuity(dir))
 		}
 		for _, r := range rs {
 			fmt.Printf("  %-8s %-8s %6.2fs %s  [%s] %s\n", r.Status, r.Solver, r.Sec, r.O.Name, r.O.Pos, r.O.Text)
